@@ -158,6 +158,9 @@ def emit(ctx: Ctx, wall_s: float, seed: int, quiet: bool = False) -> int:
         n_und = sum(1 for o in ctx.obligations if o.status == "undetermined")
         print(f"[{ctx.prop}] tier={ctx.tier} functions={len(ctx.analysed_functions)} obligations={n_ob} "
               f"discharged={n_ok} undetermined={n_und} violations={len(new)} known={len(old)} wall={wall_s:.2f}s")
+        for o in ctx.obligations:
+            if o.status == "undetermined":
+                print(f"UNDETERMINED [{o.rule}] {o.instance[:140]} -- {o.detail[:140]}")
         for ln in lines:
             print(ln)
     return 1 if new else 0
@@ -188,6 +191,7 @@ def write_evidence(ctx: Ctx, wall_s: float, seed: int, n_new: int, n_known: int)
                 "current source; distinct = distinct (rule, instance) pairs; all matched a real construct "
                 "(rules with zero matches below their floor abort the run as ANALYSIS-ERROR)",
         "per_rule": by_rule,
+        "undetermined_items": [{"rule": o.rule, "instance": o.instance[:200], "reason": o.detail[:200]} for o in obs if o.status == "undetermined"][:40],
         "functions_analysed": sorted(ctx.analysed_functions),
         "counters": ctx.counters,
         "samples": samples,
